@@ -63,11 +63,21 @@ class ScriptProc(Process):
             elif parts[0] == "X":
                 raise RuntimeError("scripted failure")
 
+    @staticmethod
+    def _scribble(msg):
+        # a handler may modify the message object it was handed (it is the handler's own copy): nobody else may ever see that
+        if isinstance(msg._data, list):
+            msg._data.append(0)
+        elif isinstance(msg._data, dict):
+            msg["k"] = 1
+
     def on_message(self, msg, sender, ctx):
         self._react("M:" + msg.type, msg._data, ctx)
+        self._scribble(msg)
 
     def on_local_message(self, msg, ctx):
         self._react("L:" + msg.type, msg._data, ctx)
+        self._scribble(msg)
 
     def on_timer(self, timer_name, ctx):
         self._react("T:" + timer_name, None, ctx)
@@ -141,5 +151,46 @@ class ScriptProcRandom(ScriptProc):
         self.ticket = random.randrange(1 << 30)
 
     def on_local_message(self, msg, ctx):
+        seen = json.dumps(msg._data)      # the payload as it was handed over
         super().on_local_message(msg, ctx)
-        ctx.send_local(Message("rnd", [self.ticket, random.randrange(1 << 30)]))
+        ctx.send_local(Message("rnd", [self.ticket, random.randrange(1 << 30), seen]))
+
+    def on_message(self, msg, sender, ctx):
+        seen = json.dumps(msg._data)
+        super().on_message(msg, sender, ctx)
+        ctx.send_local(Message("got", [sender, seen]))
+
+
+class ScriptProcOrder(ScriptProcDefault):
+    """default pickle state with a dict whose *insertion order* matters: the order in which the kinds of triggers were first seen;
+    it is reported after every message handled.  Two histories that saw the same triggers in different orders are different
+    states with different futures."""
+
+    def __init__(self, rules_json, record):
+        super().__init__(rules_json, record)
+        self.order = {}
+
+    def _mutate(self, trig):
+        super()._mutate(trig)
+        self.order.setdefault(trig, True)
+
+    def on_message(self, msg, sender, ctx):
+        super().on_message(msg, sender, ctx)
+        ctx.send_local(Message("ord", list(self.order)))
+
+    def on_local_message(self, msg, ctx):
+        super().on_local_message(msg, ctx)
+        ctx.send_local(Message("ord", list(self.order)))
+
+
+class ScriptProcUnpicklable(ScriptProcDefault):
+    """default pickle state, with an attribute `pickle` cannot serialise (a lambda): saving the state raises, and the framework has
+    to surface that as an error of the process — silently leaving the attribute out would lose it at the first restore"""
+
+    def __init__(self, rules_json, record):
+        super().__init__(rules_json, record)
+        self.fn = lambda x: x + 1
+
+    def _mutate(self, trig):
+        super()._mutate(trig)
+        self.nested["k"][0] = self.fn(self.nested["k"][0])
